@@ -7,6 +7,7 @@
 //!   rrtk-sim show   FILE          execute a plan and print its trace and violations
 //!   rrtk-sim traces --prop P --tier T --seed S --runs N     (C19 / determinism)
 
+mod api;
 mod approx;
 mod comb;
 mod core;
@@ -224,6 +225,9 @@ fn cmd_traces(args: &[String]) -> i32 {
     for idx in from..from + runs {
         let mut rng = rng::Rng::for_run(seed, &prop, idx);
         let mut plan = (spec.gen)(&prop, tier, &mut rng, seed, idx);
+        if strip && plan.world == "api" {
+            api::strip_units(&mut plan);
+        }
         if strip {
             // the well-dimensioned twin of an ill-dimensioned plan: explicit unit overrides removed
             for op in plan.ops.iter_mut() {
